@@ -8,6 +8,7 @@ from ..loops import dotted
 from ..nf import NF, Scope, Poly, parse_expr
 from ..repo import Repo, loc, short, AnalysisError, positional_params, param_names, bind_call
 from ..shapes import ShapeEngine
+from ..sem import closure_env
 from ..sympath import enumerate_paths, PathEval
 
 EXPLANATION = (
@@ -46,6 +47,8 @@ def r1_gae(ck, repo, nf):
     ck.need(len(bp) == 2, f"{q}: scan body must take (carry, inputs)")
     carry, inp = bp
     env = {carry: Poly.atom(carry, {carry}, {carry}), inp: Poly.atom(inp, {inp}, {inp}), "gamma": Poly.atom("gamma"), "lmbda": Poly.atom("lmbda")}
+    for k_, v_ in closure_env(nf, fn, body, mi, {p_: Poly.atom(p_, {p_}, {p_}) for p_ in param_names(fn)}, q).items():
+        env.setdefault(k_, v_)
     cfg = nf.cfg_of(body)
     sc = Scope(cfg, mi, env, q + ".<locals>." + body.name)
     rets = [n for n in cfg.nodes if n.kind == "stmt" and isinstance(n.ast, ast.Return)]
@@ -68,6 +71,16 @@ def r1_gae(ck, repo, nf):
     n, c = calls[0]
     a = [nf.poly(x, Scope(None, mi, oenv, q), None).canon() for x in c.args]
     ok = len(a) == 3 and a[1] == "0" and a[2] == "(rewards[::-1], values[::-1], next_values[::-1], terminateds[::-1])" and a[0].endswith(body.name)
+    if not ok:
+        # evidence of a wrong scan: forward inputs, another order of the four sequences, a non-zero initial carry; anything else is a
+        # way of writing the call this rule does not read
+        a2 = nf.poly(c.args[2], osc, n.id).canon() if len(c.args) == 3 else ""
+        known_wrong = len(a) == 3 and a[0].endswith(body.name) and (a[1] not in ("0",) and a[1].replace(".", "").isdigit() or
+                                                                      set(a2.replace("[::-1]", "").strip("()").split(", ")) == {"rewards", "values", "next_values", "terminateds"} and a2 != "(rewards[::-1], values[::-1], next_values[::-1], terminateds[::-1])")
+        if a2 == "(rewards[::-1], values[::-1], next_values[::-1], terminateds[::-1])" and a[1] == "0" and a[0].endswith(body.name):
+            ok = True
+        elif not known_wrong:
+            raise AnalysisError(f"{q}: scan call `{short(c, 100)}` (unrecognised form)")
     ck.ob("R1-gae", q, "reverse-scan-inputs", ok, f"scan({', '.join(a)[:150]})", "" if ok else "scan must run the body from carry 0 over (rewards, values, next_values, terminateds), all reversed along time", loc(mi, c))
     rets = [m for m in ocfg.nodes if m.kind == "stmt" and isinstance(m.ast, ast.Return)]
     rp = nf.poly(rets[0].ast.value.args[0] if isinstance(rets[0].ast.value, ast.Call) and rets[0].ast.value.args else rets[0].ast.value, osc, rets[0].id)
